@@ -36,10 +36,11 @@ CONSTANTS KF_IntermediateAKCounts, KF_UnconfirmedAccountOpen,
 VARIABLES conf,    \* account -> rule in force on the confirmed chain (0 = the account does not exist there)
           pend,    \* account -> rule after the pool (= conf if nothing is pending)
           mconf, mpend,   \* the same for the rule of the contract method (0 = no rule)
+          m2conf, m2pend, \* the same for the method of a second contract, bound to account A2 from the start
           own,     \* binding contract -> owning account A1: "none", "pending" (latest write in the pool), "confirmed"
           viol,    \* ghost: admitted rule changes that the rule in force on the confirmed chain did not authorise
           hist
-vars == <<conf, pend, mconf, mpend, own, viol, hist>>
+vars == <<conf, pend, mconf, mpend, m2conf, m2pend, own, viol, hist>>
 
 A == INSTANCE Acl WITH sl <- 1, e <- 1, sg <- <<>>, hist <- <<>>, MaxSigners <- 1, NestedChoices <- 1, WithNegative <- FALSE
 
@@ -64,8 +65,8 @@ Outcomes(exists, a, uri) ==
   ELSE {IF Authorised(FALSE, a, uri) THEN "accept" ELSE "reject"} \cup (IF Admitted(a, uri) THEN {"accept"} ELSE {})
 
 S0 == [conf |-> [a \in Accts |-> 0], pend |-> [a \in Accts |-> 0]]
-Init == /\ conf = S0.conf /\ pend = S0.pend /\ mconf = 0 /\ mpend = 0 /\ own = "none" /\ viol = {} /\ hist = <<>>
-Reset == /\ conf' = S0.conf /\ pend' = S0.pend /\ mconf' = 0 /\ mpend' = 0 /\ own' = "none" /\ viol' = {} /\ hist' = <<>>
+Init == /\ conf = S0.conf /\ pend = S0.pend /\ mconf = 0 /\ mpend = 0 /\ m2conf = 0 /\ m2pend = 0 /\ own = "none" /\ viol = {} /\ hist = <<>>
+Reset == /\ conf' = S0.conf /\ pend' = S0.pend /\ mconf' = 0 /\ mpend' = 0 /\ m2conf' = 0 /\ m2pend' = 0 /\ own' = "none" /\ viol' = {} /\ hist' = <<>>
 Log(ev) == hist' = Append(hist, ev)
 
 (* $acl.NewAccount(a, rule r) sent by key k.  The contract refuses an account that exists (pool included). *)
@@ -73,7 +74,7 @@ Log(ev) == hist' = Append(hist, ev)
 New(a, r, k) ==
   LET res == IF pend[a] # 0 THEN "pre_fail" ELSE "accept" IN
   /\ pend' = IF res = "accept" THEN [pend EXCEPT ![a] = r] ELSE pend
-  /\ UNCHANGED <<conf, mconf, mpend, own, viol>>
+  /\ UNCHANGED <<conf, mconf, mpend, m2conf, m2pend, own, viol>>
   /\ Log([op |-> "new", a |-> a, r |-> r, k |-> k, res |-> res])
 
 (* $acl.SetAccountAcl(a, rule r) with AuthRequire = [Uri(a, k, via)], signed by key k *)
@@ -82,7 +83,7 @@ Set(a, r, k, via) ==
   \E res \in Outcomes(pend[a] # 0, a, uri) :
     /\ pend' = IF res = "accept" THEN [pend EXCEPT ![a] = r] ELSE pend
     /\ viol' = IF res = "accept" /\ ~Authorised(FALSE, a, uri) THEN viol \cup {"account"} ELSE viol
-    /\ UNCHANGED <<conf, mconf, mpend, own>>
+    /\ UNCHANGED <<conf, mconf, mpend, m2conf, m2pend, own>>
     /\ Log([op |-> "set", a |-> a, r |-> r, k |-> k, via |-> via, res |-> res])
 
 (* the contract is bound to its owning account (write of XCContract2Account, as a deployment does); *)
@@ -90,7 +91,7 @@ Set(a, r, k, via) ==
 Bind(k) ==
   LET res == IF conf[Owner] = 0 \/ A!Sat(KF_IntermediateAKCounts, ConfEnv, Owner, <<Uri(Owner, k, 0)>>) THEN "accept" ELSE "reject" IN
   /\ own' = IF res = "accept" THEN "pending" ELSE own
-  /\ UNCHANGED <<conf, pend, mconf, mpend, viol>>
+  /\ UNCHANGED <<conf, pend, mconf, mpend, m2conf, m2pend, viol>>
   /\ Log([op |-> "bind", k |-> k, res |-> res])
 
 (* $acl.SetMethodAcl(contract, method, rule r) with AuthRequire = [Uri(Owner, k, via)], signed by k: *)
@@ -100,13 +101,27 @@ SetM(r, k, via) ==
   \E res \in (IF own = "confirmed" THEN Outcomes(TRUE, Owner, uri) ELSE {"reject"}) :
     /\ mpend' = IF res = "accept" THEN r ELSE mpend
     /\ viol' = IF res = "accept" /\ ~Authorised(FALSE, Owner, uri) THEN viol \cup {"method"} ELSE viol
-    /\ UNCHANGED <<conf, pend, mconf, own>>
+    /\ UNCHANGED <<conf, pend, mconf, m2conf, m2pend, own>>
     /\ Log([op |-> "setm", r |-> r, k |-> k, via |-> via, res |-> res])
+
+(* ONE transaction with two $acl.SetMethodAcl requests: the method of the contract owned by A1 and the method of the  *)
+(* second contract, owned by A2 (ord = which request comes first), AuthRequire = [Uri(A1, k, via)], signed by k.      *)
+(* Every record of the write set needs ITS owning account's confirmed rule satisfied.                                 *)
+SetM2(r, k, via, ord) ==
+  LET uri == Uri(Owner, k, via)
+      ideal == own = "confirmed" /\ Authorised(FALSE, "A1", uri) /\ Authorised(FALSE, "A2", uri)
+      actual == own = "confirmed" /\ Admitted("A1", uri) /\ Admitted("A2", uri) IN
+  \E res \in {IF ideal THEN "accept" ELSE "reject"} \cup (IF actual THEN {"accept"} ELSE {}) :
+    /\ mpend' = IF res = "accept" THEN r ELSE mpend
+    /\ m2pend' = IF res = "accept" THEN r ELSE m2pend
+    /\ viol' = IF res = "accept" /\ ~ideal THEN viol \cup {"method"} ELSE viol
+    /\ UNCHANGED <<conf, pend, mconf, m2conf, own>>
+    /\ Log([op |-> "setm2", r |-> r, k |-> k, via |-> via, ord |-> ord, res |-> res])
 
 (* a call of the contract method sent and signed by key k: the method rule in force on the confirmed chain *)
 Call(k) ==
   LET res == IF A!Sat(KF_IntermediateAKCounts, ConfEnv, "M", << <<KeyName(k)>> >>) THEN "accept" ELSE "reject" IN
-  /\ UNCHANGED <<conf, pend, mconf, mpend, own, viol>>
+  /\ UNCHANGED <<conf, pend, mconf, mpend, m2conf, m2pend, own, viol>>
   /\ Log([op |-> "call", k |-> k, res |-> res])
 
 (* a transfer out of account a's funds (verifyUTXOPermission) with AuthRequire = [Uri(a, k, via)], signed by k: *)
@@ -116,14 +131,14 @@ Spend(a, k, via) ==
   \E res \in {IF Authorised(FALSE, a, uri) THEN "accept" ELSE "reject"}
                \cup (IF Authorised(KF_IntermediateAKCounts, a, uri) THEN {"accept"} ELSE {}) :
     /\ viol' = IF res = "accept" /\ ~Authorised(FALSE, a, uri) THEN viol \cup {"spend"} ELSE viol
-    /\ UNCHANGED <<conf, pend, mconf, mpend, own>>
+    /\ UNCHANGED <<conf, pend, mconf, mpend, m2conf, m2pend, own>>
     /\ Log([op |-> "spend", a |-> a, k |-> k, via |-> via, res |-> res])
 
 (* a block confirms the pool *)
 Mine ==
-  /\ conf' = pend /\ mconf' = mpend
+  /\ conf' = pend /\ mconf' = mpend /\ m2conf' = m2pend
   /\ own' = IF own = "pending" THEN "confirmed" ELSE own
-  /\ UNCHANGED <<pend, mpend, viol>>
+  /\ UNCHANGED <<pend, mpend, m2pend, viol>>
   /\ Log([op |-> "mine", res |-> "ok"])
 
 Next == /\ Len(hist) < MaxOps
@@ -131,15 +146,16 @@ Next == /\ Len(hist) < MaxOps
            \/ \E a \in Accts, r \in KeyIds, k \in KeyIds, via \in {0} \cup KeyIds : Set(a, r, k, via)
            \/ \E k \in KeyIds : Bind(k)
            \/ \E r \in KeyIds, k \in KeyIds, via \in {0} \cup KeyIds : SetM(r, k, via)
+           \/ \E r \in KeyIds, k \in KeyIds, via \in {0} \cup KeyIds, ord \in {1, 2} : SetM2(r, k, via, ord)
            \/ \E k \in KeyIds : Call(k)
            \/ \E a \in Accts, k \in KeyIds, via \in {0} \cup KeyIds : Spend(a, k, via)
            \/ Mine
 Spec == Init /\ [][Next]_vars
-View == <<conf, pend, mconf, mpend, own, viol>>
+View == <<conf, pend, mconf, mpend, m2conf, m2pend, own, viol>>
 
-Obs == [conf |-> conf, pend |-> pend, mconf |-> mconf, mpend |-> mpend, own |-> own]
+Obs == [conf |-> conf, pend |-> pend, mconf |-> mconf, mpend |-> mpend, m2conf |-> m2conf, m2pend |-> m2pend, own |-> own]
 
-TypeOK == /\ conf \in [Accts -> 0..3] /\ pend \in [Accts -> 0..3] /\ mconf \in 0..3 /\ mpend \in 0..3
+TypeOK == /\ conf \in [Accts -> 0..3] /\ pend \in [Accts -> 0..3] /\ mconf \in 0..3 /\ mpend \in 0..3 /\ m2conf \in 0..3 /\ m2pend \in 0..3
           /\ own \in {"none", "pending", "confirmed"} /\ viol \subseteq {"account", "method", "spend"}
 (* the property (IDEAL): no admitted change without the confirmed rule of the owning account satisfied *)
 ChangesAuthorised == viol = {}
